@@ -229,6 +229,8 @@ def run(tier):
         for _p in 'ds':
             r12_supernodal.run(chk, 'C01.kern.index', prog, _p, cfgname)
             r12_supernodal.run_snode(chk, 'C01.kern.index', prog, _p, cfgname)
+        from ..rules import r5_grow as _r5
+        _r5.run(chk, 'R5', prog, cfgname)
         chk.clause('C01.kern.copy', 'growth of factor storage carries the old contents over')
         expand.copy_helper_rule(chk, 'C01.kern.copy', prog, cfgname)
         if n1 < 4 * 24 or n2 < 4 * 3:
